@@ -145,7 +145,7 @@ theorem recv_after_end (z : ZlibFns) (retry : Bool) (maxChunk : Nat) (script : L
 /-! ### (5) `stream.write` and `Channel.send` under every send script -/
 
 /-- For EVERY send script (partial sends of any size, a failure at any call): the bytes the transport
-has accepted are the previous ones plus a prefix of `data`; the whole of `data` iff `write` returned;
+has accepted are the previous ones plus a prefix of `data`; the whole of `data` whenever `write` returned (only this direction is stated);
 otherwise `EOFError` was raised and the stream is closed (every `socket.error`, a timeout included, is
 fatal to a write), or the writer is still blocked when the script ends. -/
 theorem writeAll_spec (maxChunk : Nat) (data : Bytes) (s : WState) :
@@ -163,8 +163,8 @@ theorem writeAll_spec (maxChunk : Nat) (data : Bytes) (s : WState) :
   · exact Or.inr (Or.inr h)
 
 /-- For every packet list and EVERY send script: what the transport has accepted is a prefix of the
-concatenated frames (so the receiver-side theorem (4) applies to it); it is all of them iff every
-`send` returned; otherwise `EOFError` + closed, or blocked. -/
+concatenated frames (so the receiver-side theorem (4) applies to it); it is all of them whenever every
+`send` returned (only this direction is stated); otherwise `EOFError` + closed, or blocked. -/
 theorem sendAll_prefix (z : ZlibFns) (c : Bool) (maxChunk : Nat) (hmax : Gen.frameHeaderSize ≤ maxChunk)
     (ps : List Bytes) (script : List SendEv) (hf : ∀ p ∈ ps, Fits z c p) :
     (sendMany z c maxChunk ps ⟨[], script, false⟩).2.2.sent <+: wireOf z c ps ∧
